@@ -334,6 +334,12 @@ func runCase(c caseIn, o *vh.Out) {
 	if out != out2 && !panicked {
 		o.Oracle("inspect-differs", short, "Walk: "+clip(out)+" Inspect: "+clip(out2))
 	}
+	for _, n := range byID {
+		if astx.KindName(n) == "" {
+			o.Oracle("foreign-node:"+reflect.TypeOf(n).String(), short, "the tree contains a node that is not an ast node kind (Walk cannot have a case for it)")
+			break
+		}
+	}
 	kind := astx.KindName(c.root)
 	o.Count("root_" + kind)
 	if panicked {
@@ -394,26 +400,8 @@ func rel(p string) string {
 func fromRecipe(recipe string, m int) (caseIn, error) {
 	fs := strings.Split(recipe, "|")
 	switch fs[0] {
-	case "file":
-		p, err := astx.SafeParse(filepath.Join(astx.Repo(), fs[1]), nil)
-		if err != nil {
-			return caseIn{}, err
-		}
-		return caseIn{recipe, p.File, m, true, true}, nil
-	case "emb":
-		p, err := astx.ParseEmbedded(fs[1])
-		if err != nil {
-			return caseIn{}, err
-		}
-		return caseIn{recipe, p.File, m, true, true}, nil
-	case "mut":
-		seed, _ := strconv.ParseUint(fs[2], 10, 64)
-		path := filepath.Join(astx.Repo(), fs[1])
-		src, err := os.ReadFile(path)
-		if err != nil {
-			return caseIn{}, err
-		}
-		p, err := astx.SafeParse(path, astx.MutateLayout(src, vh.NewRand(seed)))
+	case "file", "emb", "mut", "dense", "gen", "tokmut":
+		p, err := astx.ParseRecipe(recipe)
 		if err != nil {
 			return caseIn{}, err
 		}
@@ -484,8 +472,9 @@ func main() {
 	}
 
 	// 1. corpus: every XGo-family file, and Go files (all in thorough, a seeded sample in quick)
-	for _, name := range astx.EmbeddedFiles() {
+	for _, name := range astx.EmbeddedFiles() { // fixed regression corpus (neg_*: near-valid, walked if accepted)
 		try("emb|"+name, 0)
+		try("emb|"+name+"#1", 0)
 	}
 	xgo, gofiles := astx.CorpusFiles()
 	for i, p := range xgo {
@@ -517,6 +506,23 @@ func main() {
 		rr := r.Fork(2000 + i)
 		p := xgo[rr.Intn(len(xgo))]
 		try(fmt.Sprintf("mut|%s|%d", rel(p), rr.U64()%1000000), prune(rr))
+	}
+	// 2b. NEW source text: generated scripts and token-level mutants of valid sources, parsed in
+	// every mode; whatever the parser returns with err == nil is a "tree produced by the parser"
+	nGen := f.N / 4
+	emb := astx.EmbeddedFiles()
+	for i := 0; i < nGen; i++ {
+		rr := r.Fork(4000 + i)
+		rec := fmt.Sprintf("gen|%d", rr.U64()%100000000)
+		if i%3 == 2 {
+			rec += fmt.Sprintf("#%d", 1+rr.Intn(len(astx.ParseModes)-1))
+		}
+		try(rec, prune(rr))
+		ref := "emb:" + emb[rr.Intn(len(emb))]
+		if rr.Bool() && len(xgo) > 0 {
+			ref = "file:" + rel(xgo[rr.Intn(len(xgo))])
+		}
+		try(fmt.Sprintf("tokmut|%s|%d", ref, rr.U64()%100000000), 0)
 	}
 	// 3. packages
 	for i := 0; i < 6; i++ {
